@@ -22,7 +22,8 @@ def reset():
     sh('git checkout -- . && git clean -fdq'); sh('find . -name zz_contracts_verif.go -delete')
 def rundemo():
     shutil.copy(f'{out}/demo_test.go',os.path.join(d,'zz_seed_demo_test.go'))
-    r=sh(f"go test -vet=off -count=1 -timeout 300s -run '{run}' {target}")
+    race='-race ' if ' -race' in ' '.join(line) else ''
+    r=sh(f"go test {race}-vet=off -count=1 -timeout 300s -run '{run}' {target}")
     os.remove(os.path.join(d,'zz_seed_demo_test.go'))
     return r.returncode,(r.stdout+r.stderr)[-1500:]
 reset()
